@@ -86,6 +86,12 @@ def version_refusals(F, G, rep):
                 if not any("Version" in (o.get("ty") or "") for o in ops):
                     continue
                 pl = [tir.place(o) for o in ops]
+                # both sides already denote the same place inside this function (through immutable lets): trivially equal
+                env_ = tir.LetEnv(b["tir"]["value"])
+                pe = [env_.place(o, peel=False) for o in ops]
+                if pe[0] is not None and pe[0] == pe[1]:
+                    rep.ob("no-version-refusal.assert", True, fn, "assert_eq", "", tir.sp(n))
+                    continue
                 # substitute the callee's parameters by the argument places of every call site
                 sites = []
                 for caller in sorted(R):
